@@ -15,6 +15,12 @@ CHECKS.append(
      "level_note": "Trusted: the fresh object built by the same pyrex code without intervening reads (oracle 1 cannot see an error that does not depend on read placement - oracle 2 covers plain signals for that), numpy FFT for oracle 2. In-place mutation of array elements or of a shared ice object is not generated (not an attribute assignment). A read raising the same exception type on the fresh object counts as agreement.",
      "technique": TECH + "PRNG-scheduled read/mutate interleavings vs fresh-twin and eager-definition oracles"})
 
+CHECKS.append(
+    {"property_id": "C19", "category": "exploration", "design_ref": "DESIGN.md §4 C19",
+     "text": "Seeded search over histories of detector construction (generated Detector subclasses, nesting depth 1-4, spy sub-detectors with different build/trigger signatures), composition by +, list/antenna on the left, +=, sum, receptions on individual antennas, clear, trigger queries with keyword sets, indexing, and rejected compositions with antennas or sub-detectors above the ice. After every step every live detector's iteration/len/indexing is compared with the model list of antenna objects (identity, order, no duplicates), (a+b)+c = a+(b+c) = sum = +=, triggers with the union over antennas/sub-detectors, clears with exactly the model antennas, and spies with the keywords they accept. Sampled: evidence, not proof.",
+     "level_note": "Trusted: the harness's Detector subclasses and its model of construction order; antenna is_hit itself (C09). += is not issued on a detector object nested in another live detector; keywords no sub-detector names are not generated (caller error).",
+     "technique": TECH + "seeded composition/fault histories vs ordered-antenna-list model with per-step invariants"})
+
 NOT_APPLICABLE = [
     {"property_id": "C01", "reason": "pure function of (endpoints, ice parameters, dz): no state, randomness, I/O, schedule or fault for a simulator to control; needs an ODE/quadrature oracle (different technique)"},
     {"property_id": "C02", "reason": "metamorphic relations between pure function evaluations (swap/translate/rotate endpoints); no history or fault dimension (lazy-cache aspect of tracers is covered under C06)"},
@@ -33,5 +39,4 @@ NOT_APPLICABLE = [
     {"property_id": "C13", "reason": "claimed in DESIGN.md; check under construction in this session"},
     {"property_id": "C14", "reason": "claimed in DESIGN.md; check under construction in this session"},
     {"property_id": "C17", "reason": "claimed in DESIGN.md; check under construction in this session"},
-    {"property_id": "C19", "reason": "claimed in DESIGN.md; check under construction in this session"},
 ]
